@@ -1,7 +1,107 @@
-(* C07 — json numeric decoding (json.go DecodeInt64/DecodeUint64 via decimal.go).
-   Placeholder until the json model lands: every literal is reported as not modelled. *)
-From Coq Require Import List ZArith Bool.
-From Verif Require Import Base.Word Base.Outcome Base.FBits C07.Model.
+(* C07 — json numeric decoding: the bytes of one number token -> destination kind ->
+   stored value or error.
+
+   The token is what json.go decNumBytes hands on: the bytes jsonReadNum collected
+   (every byte of the literal; for a valid literal decoded at top level exactly the
+   literal), the empty token for null.
+
+   Composition (hand written here, tied by correspondence, harness/cmd/c07 json cases):
+     json.go     DecodeInt64 = parseInt64 . decNumBytes, DecodeUint64, DecodeFloat64, DecodeFloat32
+     decimal.go  parseInteger_bytes: sign, parseUint64_simple, else readFloat(fi64u) +
+                 parseUint64_reader, else not ok
+   Pieces:
+     C09/Model.v (hand model, tied by C09's correspondence): readFloat, parseUint64_simple,
+                 parseFloat_custom (fast path, else the strconv oracle: a function argument)
+     Gen/Leaf.v  (translated from the source on every run): parseUint64_reader,
+                 checkOverflow_Uint2Int, and through C07/Model.v narrow_int / narrow_uint:
+                 checkOverflow_IntV / UintV
+   Integers are Z, floats IEEE bit patterns (Z); bytes are N as in C09.
+   No proofs in this file. *)
+From Coq Require Import List NArith ZArith Bool.
+From Verif Require Import C09.Spec C09.Model.
+From Verif Require Import Base.Word Base.Outcome Gen.Consts Gen.Leaf C07.Model.
+Import ListNotations.
 Local Open Scope Z_scope.
 
-Definition json_decode (k : kind) (bs : list Z) : res Z := Err EUnsupported.
+(* the hand model's readFloat result as the translated struct *)
+Definition to_leaf (r : rfr) : readFloatResult :=
+  mk_readFloatResult (mant r) (rexp r) (rneg r) (rtrunc r) (rbad r) (rhard r) (rok r).
+
+(* decimal.go parseInteger_bytes: (u, neg, ok).  An index panic inside parseUint64_reader
+   (table lookup) would surface as an error of Decode: [Err]. *)
+Definition parseInteger_bytes (b : list N) : res (Z * bool * bool) :=
+  match b with
+  | [] => Ok (0, false, true)
+  | c :: t =>
+    let neg := (c =? 45)%N in
+    if neg && is_nil t then Ok (0, false, false)
+    else
+      let b1 := if neg then t else b in
+      let '(u, ok) := parseUint64_simple b1 in
+      if ok then Ok (u, neg, true)
+      else
+        let r := readFloat b1 fi64u in
+        if rok r then
+          do (u2, fail) <- parseUint64_reader (to_leaf r) ;;
+          if (fail : bool) then Ok (0, neg, false) else Ok (u2, neg, true)
+        else Ok (u, neg, false)
+  end.
+
+(* json.go DecodeUint64 *)
+Definition json_DecodeUint64 (s : list N) : res Z :=
+  do (u, neg, ok) <- parseInteger_bytes s ;;
+  if (neg : bool) then Err EOther            (* negative number cannot be decoded as uint64 *)
+  else if negb ok then Err EOther            (* strconv.ErrSyntax *)
+  else Ok u.
+
+(* json.go DecodeInt64 / parseInt64: -int64(u) resp. int64(u) with Go's wrap-around *)
+Definition json_DecodeInt64 (s : list N) : res Z :=
+  do (u, neg, ok) <- parseInteger_bytes s ;;
+  if negb ok then Err EOther
+  else if checkOverflow_Uint2Int u neg then Err EOverflow
+  else Ok (if (neg : bool) then wraps 64 (- wraps 64 u) else wraps 64 u).
+
+Section Oracle.
+  (* strconv.ParseFloat(s, bits): bit pattern, or None for a syntax/range error (as in C09) *)
+  Variable strconv : bfmt -> list N -> option Z.
+
+  (* json.go DecodeFloat64 / DecodeFloat32: the empty token (null) is the zero value *)
+  Definition json_DecodeFloat (f : bfmt) (s : list N) : res Z :=
+    if is_nil s then Ok 0
+    else match parseFloat_custom strconv f s with
+         | Some b => Ok b
+         | None => Err EOther
+         end.
+  Definition json_DecodeFloat64 := json_DecodeFloat binary64.
+  Definition json_DecodeFloat32 := json_DecodeFloat binary32.
+
+  (* the generic layer (decode.go): the same narrowing as for the binary formats; float32
+     destinations call the driver's own DecodeFloat32 (no float64 detour for json) *)
+  Definition json_decode (k : kind) (s : list N) : res Z :=
+    match k with
+    | KInt8 => narrow_int 8 (json_DecodeInt64 s)
+    | KInt16 => narrow_int 16 (json_DecodeInt64 s)
+    | KInt32 => narrow_int 32 (json_DecodeInt64 s)
+    | KInt64 => json_DecodeInt64 s
+    | KInt => narrow_int wordBits (json_DecodeInt64 s)
+    | KUint8 => narrow_uint 8 (json_DecodeUint64 s)
+    | KUint16 => narrow_uint 16 (json_DecodeUint64 s)
+    | KUint32 => narrow_uint 32 (json_DecodeUint64 s)
+    | KUint64 => json_DecodeUint64 s
+    | KUint => narrow_uint wordBits (json_DecodeUint64 s)
+    | KUintptr => narrow_uint wordBits (json_DecodeUint64 s)
+    | KFloat32 => json_DecodeFloat32 s
+    | KFloat64 => json_DecodeFloat64 s
+    end.
+End Oracle.
+
+(* integer destinations do not look at the oracle *)
+Definition no_strconv : bfmt -> list N -> option Z := fun _ _ => None.
+Definition json_decode_int (k : kind) (s : list N) : res Z := json_decode no_strconv k s.
+
+(* ---- what a literal means (C09/Spec.v: numlit, dmant, dexp) ----
+   the exact value of the literal n is (-1)^nneg * dmant n * 10^dexp n; it is the integer x: *)
+Definition lit_signed_mant (n : numlit) : Z := if nneg n then - dmant n else dmant n.
+Definition lit_is_int (n : numlit) (x : Z) : Prop :=
+  (0 <= dexp n -> x = lit_signed_mant n * 10 ^ dexp n) /\
+  (dexp n < 0 -> x * 10 ^ (- dexp n) = lit_signed_mant n).
